@@ -1,7 +1,1653 @@
+"""C10 generator (b): grammar-based programs (Hypothesis, by construction).
+
+program() draws a JSON tree {"kind":"prog","defs":[...],"stmts":[{"s":stmt,"out":[names],"fam":family}]}
+(node forms: see cv.gen.c10_render).  Generation is typed (i int, b bool, s str, n None, L list[int],
+T tuple[int], D dict[str,int], X any plain data, o:<Class> instance) and threads an environment, so every
+program is well scoped and almost always runs under CPython; run() is single-assignment because the
+tracer documents re-binding a name as an error.
+"""
+from __future__ import annotations
+
 from hypothesis import strategies as st
-def program():
-    return st.just({"kind": "prog"})
-def check_program(case, env):
-    return env.Outcome(status="unspecified")
+
+KEYS = ["a", "b", "c", "d"]
+BINOPS_I = ["+", "-", "*", "//", "%", "&", "|", "^", "**"]
+CMPOPS = ["==", "!=", "<", "<=", ">", ">="]
+OVL_BIN = {"+": "add", "-": "sub", "*": "mul", "|": "or", "&": "and", "^": "xor", "@": "matmul", "<<": "lshift",
+           ">>": "rshift", "//": "floordiv", "%": "mod"}
+OVL_CMP = {"==": "eq", "!=": "ne", "<": "lt", "<=": "le", ">": "gt", ">=": "ge"}
+
+
+def lit(v):
+    return ["lit", v]
+
+
+def var(n):
+    return ["var", n]
+
+
+def call(f, *pos, **kw):
+    return ["call", f if isinstance(f, list) else var(f), [["p", p] for p in pos] + [["k", k, v] for k, v in kw.items()]]
+
+
+class Env:
+    def __init__(self):
+        self.n = 0
+        self.funcs = []  # module level callables: {"callee": node, "params": sig, "ret": "i"|"X", "tag": str}
+        self.classes = {}  # name -> class descriptor
+        self.consts = {}  # module level int constants
+        self.factories = []
+
+    def fresh(self, p="v"):
+        self.n += 1
+        return f"{p}{self.n}"
+
+
+def W(draw, opts):
+    """Weighted choice among (weight, thunk) pairs."""
+    idx = []
+    for i, (w, _) in enumerate(opts):
+        idx += [i] * w
+    return opts[draw(st.sampled_from(idx))][1]()
+
+
+def names_of(sc, ty):
+    return [n for n, t in sc.items() if t == ty]
+
+
+def obj_names(sc):
+    return [n for n, t in sc.items() if isinstance(t, str) and t.startswith("o:")]
+
+
+SMALL = st.integers(-4, 9)
+
+
+# ============================================================================ expressions
+def gen(draw, ty, sc, env, d):
+    return {"i": gen_i, "b": gen_b, "s": gen_s, "n": gen_n, "L": gen_L, "T": gen_T, "D": gen_D, "c": gen_c}[ty](
+        draw, sc, env, d)
+
+
+def gen_i(draw, sc, env, d):
+    leaves = [(3, lambda: lit(draw(SMALL)))]
+    iv = names_of(sc, "i")
+    if iv:
+        leaves.append((5, lambda: var(draw(st.sampled_from(iv)))))
+    if env.consts:
+        leaves.append((1, lambda: var(draw(st.sampled_from(sorted(env.consts))))))
+    if d <= 0:
+        return W(draw, leaves)
+    d1 = d - 1
+
+    def binop():
+        op = draw(st.sampled_from(BINOPS_I))
+        a = gen_i(draw, sc, env, d1)
+        if op == "**":
+            b = lit(draw(st.integers(0, 3)))
+        elif op in ("//", "%"):
+            b = lit(draw(st.sampled_from([-3, -2, 1, 2, 3, 5]))) if draw(st.integers(0, 4)) else gen_i(draw, sc, env, d1)
+        else:
+            b = gen_i(draw, sc, env, d1)
+        return ["bin", op, a, b]
+
+    def seq():
+        return gen(draw, draw(st.sampled_from(["L", "T"])), sc, env, d1)
+
+    opts = leaves + [
+        (6, binop),
+        (1, lambda: ["un", draw(st.sampled_from(["-", "+"])), gen_i(draw, sc, env, d1)]),
+        (1, lambda: call("abs", gen_i(draw, sc, env, d1))),
+        (2, lambda: call(draw(st.sampled_from(["min", "max"])),
+                         *[gen_i(draw, sc, env, d1) for _ in range(draw(st.integers(2, 3)))])),
+        (1, lambda: call(draw(st.sampled_from(["min", "max"])), nonempty_seq(draw, sc, env, d1))),
+        (2, lambda: call("len", gen(draw, draw(st.sampled_from(["L", "T", "D", "s"])), sc, env, d1))),
+        (3, lambda: ["sub", nonempty_seq(draw, sc, env, d1), lit(draw(st.sampled_from([0, 0, 1, -1, 2])))]),
+        (2, lambda: dict_get(draw, sc, env, d1)),
+        (3, lambda: ["ife", gen_c(draw, sc, env, d1), gen_i(draw, sc, env, d1), gen_i(draw, sc, env, d1)]),
+        (1, lambda: ["bin", draw(st.sampled_from(["+", "*", "&", "|"])), gen_b(draw, sc, env, d1), gen_i(draw, sc, env, d1)]),
+    ]
+    fi = [f for f in env.funcs + sc_funcs(sc) if f["ret"] == "i"]
+    if fi:
+        opts.append((5, lambda: gen_call(draw, draw(st.sampled_from(fi)), sc, env, d1)))
+    if obj_names(sc):
+        opts.append((5, lambda: obj_int(draw, sc, env, d1)))
+    return W(draw, opts)
+
+
+def sc_funcs(sc):
+    return [t for t in sc.get("__funcs__", [])]
+
+
+def nonempty_seq(draw, sc, env, d):
+    """A list/tuple expression that is non-empty by construction."""
+    kind = draw(st.sampled_from(["list", "tuple"]))
+    n = draw(st.integers(1, 3))
+    items = [gen_i(draw, sc, env, d) for _ in range(n)]
+    cand = names_of(sc, "L") + names_of(sc, "T")
+    if cand and draw(st.booleans()):
+        items.append(["star", var(draw(st.sampled_from(cand)))])
+    if kind == "tuple" and any(i[0] == "star" for i in items):
+        kind = "list" if draw(st.integers(0, 3)) else "tuple"  # starred tuple displays: always rejected, keep rare
+    return [kind, items]
+
+
+def dict_get(draw, sc, env, d):
+    dn = names_of(sc, "D")
+    k = draw(st.sampled_from(KEYS))
+    if dn and draw(st.booleans()):
+        base = var(draw(st.sampled_from(dn)))
+        return ["call", ["attr", base, "get"], [["p", lit(k)], ["p", gen_i(draw, sc, env, d)]]]
+    n = draw(st.integers(1, 3))
+    keys = draw(st.lists(st.sampled_from(KEYS), min_size=n, max_size=n, unique=True))
+    dct = ["dict", [[lit(x), gen_i(draw, sc, env, d)] for x in keys]]
+    form = draw(st.integers(0, 2))
+    if form == 0:
+        return ["sub", dct, lit(keys[0])]
+    if form == 1:
+        return ["call", ["attr", dct, "get"], [["p", lit(k)], ["p", lit(draw(SMALL))]]]
+    return ["call", ["attr", dct, "get"], [["p", lit(keys[-1])]]]
+
+
+def gen_b(draw, sc, env, d):
+    leaves = [(2, lambda: lit(draw(st.booleans())))]
+    bv = names_of(sc, "b")
+    if bv:
+        leaves.append((4, lambda: var(draw(st.sampled_from(bv)))))
+    if d <= 0:
+        return W(draw, leaves)
+    d1 = d - 1
+
+    def cmp():
+        n = draw(st.sampled_from([2, 2, 2, 3, 3, 4]))
+        return ["cmp", [gen_i(draw, sc, env, d1) for _ in range(n)],
+                [draw(st.sampled_from(CMPOPS)) for _ in range(n - 1)]]
+
+    def isn():
+        cand = names_of(sc, "n") + names_of(sc, "i")
+        e = var(draw(st.sampled_from(cand))) if cand and draw(st.booleans()) else draw(
+            st.sampled_from([lit(None), lit(0)]))
+        return ["cmp", [e, lit(None)], [draw(st.sampled_from(["is", "is not"]))]]
+
+    def isinst():
+        e = gen(draw, draw(st.sampled_from(["i", "b", "s", "n", "L", "T", "D"])), sc, env, 0 if d1 > 0 else 0)
+        tys = ["int", "bool", "str", "list", "tuple", "dict", "type(None)"] + sorted(env.classes)
+        form = draw(st.integers(0, 3))
+        if form == 0:
+            return call("isinstance", e, var(draw(st.sampled_from(tys))))
+        if form == 1:
+            return call("isinstance", e, ["tuple", [var(t) for t in draw(st.lists(st.sampled_from(tys), min_size=1, max_size=3))]])
+        if form == 2:
+            return ["cmp", [call("type", e), var(draw(st.sampled_from(tys)))], [draw(st.sampled_from(["is", "is not"]))]]
+        return call("isinstance", e, ["bin", "|", var(draw(st.sampled_from(tys[:6]))), var(draw(st.sampled_from(tys[:6])))])
+
+    opts = leaves + [
+        (7, cmp),
+        (2, isn),
+        (3, lambda: ["un", "not", gen_c(draw, sc, env, d1)]),
+        (3, lambda: call("bool", gen_c(draw, sc, env, d1))),
+        (3, isinst),
+        (1, lambda: ["cmp", [gen_s(draw, sc, env, d1), gen_s(draw, sc, env, d1)], [draw(st.sampled_from(["==", "==", "!="]))]]),
+        (1, lambda: ["bin", draw(st.sampled_from(["&", "|", "^"])), gen_b(draw, sc, env, d1), gen_b(draw, sc, env, d1)]),
+        (1, lambda: call(draw(st.sampled_from(["any", "all"])),
+                         ["list", [gen(draw, draw(st.sampled_from(["i", "b"])), sc, env, d1) for _ in range(draw(st.integers(0, 3)))]])),
+        (2, lambda: ["ife", gen_c(draw, sc, env, d1), gen_b(draw, sc, env, d1), gen_b(draw, sc, env, d1)]),
+    ]
+    on = obj_names(sc)
+    if on:
+        opts.append((3, lambda: obj_bool(draw, sc, env, d1)))
+    return W(draw, opts)
+
+
+def gen_c(draw, sc, env, d):
+    """Expression used in a boolean context (only its truth value is observable)."""
+    opts = [(4, lambda: gen_b(draw, sc, env, d)), (2, lambda: gen_i(draw, sc, env, d))]
+    if names_of(sc, "n"):
+        opts.append((1, lambda: var(draw(st.sampled_from(names_of(sc, "n"))))))
+    if d > 0:
+        opts.append((4, lambda: ["boolop", draw(st.sampled_from(["and", "or"])),
+                                 [gen_c(draw, sc, env, d - 1) for _ in range(draw(st.integers(2, 3)))]]))
+        on = [n for n in obj_names(sc) if env.classes[sc[n][2:]]["bool"]]
+        if on:
+            opts.append((2, lambda: var(draw(st.sampled_from(on)))))
+    return W(draw, opts)
+
+
+def gen_s(draw, sc, env, d):
+    leaves = [(3, lambda: lit(draw(st.sampled_from(["", "a", "ab", "xyz", "a b"]))))]
+    sv = names_of(sc, "s")
+    if sv:
+        leaves.append((3, lambda: var(draw(st.sampled_from(sv)))))
+    if d <= 0:
+        return W(draw, leaves)
+    d1 = d - 1
+    return W(draw, leaves + [
+        (2, lambda: ["sub", lit(draw(st.sampled_from(["abc", "xyzw"]))), lit(draw(st.integers(-2, 2)))]),
+        (1, lambda: ["sub", gen_s(draw, sc, env, d1), slice_idx(draw)]),
+        (2, lambda: ["call", ["attr", lit(draw(st.sampled_from(["{}", "x{}y{}", "{0}-{0}"]))), "format"],
+                     [["p", gen_i(draw, sc, env, d1)], ["p", gen_i(draw, sc, env, d1)]]]),
+        (1, lambda: ["ife", gen_c(draw, sc, env, d1), gen_s(draw, sc, env, d1), gen_s(draw, sc, env, d1)]),
+        (1, lambda: ["bin", "+", gen_s(draw, sc, env, d1), gen_s(draw, sc, env, d1)]),
+    ])
+
+
+def gen_n(draw, sc, env, d):
+    nv = names_of(sc, "n")
+    if nv and draw(st.booleans()):
+        return var(draw(st.sampled_from(nv)))
+    return lit(None)
+
+
+def slice_idx(draw):
+    def part(vals):
+        return lit(draw(st.sampled_from(vals))) if draw(st.booleans()) else None
+
+    return ["slice", part([0, 1, 2, -1, -2]), part([1, 2, 3, -1, 5]),
+            part([1, 2, -1, -2]) if draw(st.integers(0, 2)) == 0 else None]
+
+
+def seq_items(draw, sc, env, d, lo=0, hi=4):
+    items = [gen_i(draw, sc, env, d) for _ in range(draw(st.integers(lo, hi)))]
+    cand = names_of(sc, "L") + names_of(sc, "T")
+    if cand and draw(st.integers(0, 2)) == 0:
+        items.insert(draw(st.integers(0, len(items))), ["star", var(draw(st.sampled_from(cand)))])
+    return items
+
+
+def gen_iter(draw, sc, env, d):
+    """An iterable with a statically known element shape -> (expr, target, {loop var: type})."""
+    env_n = lambda: env.fresh("t")  # noqa: E731
+
+    def rng():
+        form = draw(st.integers(0, 2))
+        args = [lit(draw(st.integers(0, 4)))] if form == 0 else (
+            [lit(draw(st.integers(-1, 2))), lit(draw(st.integers(0, 5)))] if form == 1 else
+            [lit(draw(st.integers(0, 6))), lit(draw(st.integers(-2, 6))), lit(draw(st.sampled_from([1, 2, -1, -2, 3])))])
+        n = env_n()
+        return call("range", *args), n, {n: "i"}
+
+    def seq():
+        n = env_n()
+        return gen(draw, draw(st.sampled_from(["L", "T"])), sc, env, d), n, {n: "i"}
+
+    def zipped():
+        k = draw(st.integers(2, 3))
+        ns = [env_n() for _ in range(k)]
+        e = call("zip", *[gen(draw, draw(st.sampled_from(["L", "T"])), sc, env, d) for _ in range(k)])
+        if draw(st.integers(0, 3)) == 0:
+            n = env_n()
+            return e, n, {n: "T"}
+        return e, ns, {x: "i" for x in ns}
+
+    def enum():
+        a, b = env_n(), env_n()
+        inner = gen(draw, draw(st.sampled_from(["L", "T"])), sc, env, d)
+        form = draw(st.integers(0, 2))
+        e = call("enumerate", inner) if form == 0 else (
+            call("enumerate", inner, lit(draw(st.integers(-1, 3)))) if form == 1 else
+            call("enumerate", inner, start=lit(draw(st.integers(0, 3)))))
+        return e, [a, b], {a: "i", b: "i"}
+
+    def enumzip():
+        a, b, c = env_n(), env_n(), env_n()
+        e = call("enumerate", call("zip", gen_L(draw, sc, env, d), gen_T(draw, sc, env, d)))
+        return e, [a, [b, c]], {a: "i", b: "i", c: "i"}
+
+    def items():
+        k, v = env_n(), env_n()
+        dd = gen_D(draw, sc, env, d)
+        form = draw(st.integers(0, 3))
+        if form == 0:
+            return ["call", ["attr", dd, "items"], []], [k, v], {k: "s", v: "i"}
+        if form == 1:
+            return ["call", ["attr", dd, "values"], []], v, {v: "i"}
+        if form == 2:
+            return ["call", ["attr", dd, "keys"], []], k, {k: "s"}
+        return dd, k, {k: "s"}
+
+    def chars():
+        n = env_n()
+        return gen_s(draw, sc, env, 0), n, {n: "s"}
+
+    def pairs():
+        a, b = env_n(), env_n()
+        k = draw(st.integers(0, 3))
+        e = [draw(st.sampled_from(["list", "tuple"])),
+             [[draw(st.sampled_from(["tuple", "list"])), [gen_i(draw, sc, env, 0), gen_i(draw, sc, env, 0)]] for _ in range(k)]]
+        return e, [a, b], {a: "i", b: "i"}
+
+    return W(draw, [(4, rng), (4, seq), (3, zipped), (3, enum), (1, enumzip), (3, items), (1, chars), (2, pairs)])
+
+
+def gen_conds(draw, sc, env, d, lv=None):
+    """Conditions of a comprehension; mostly predicates on the loop variables so that they really filter."""
+    ints = [n for n, t in (lv or {}).items() if t == "i"]
+    conds = []
+    for _ in range(draw(st.sampled_from([0, 0, 1, 1, 2, 2, 3]))):
+        if ints and draw(st.integers(0, 3)):
+            v = var(draw(st.sampled_from(ints)))
+            form = draw(st.integers(0, 2))
+            if form == 0:
+                conds.append(["cmp", [v, lit(draw(st.integers(-1, 4)))], [draw(st.sampled_from(CMPOPS))]])
+            elif form == 1:
+                conds.append(["cmp", [["bin", "%", v, lit(draw(st.sampled_from([2, 3])))], lit(draw(st.integers(0, 1)))],
+                              [draw(st.sampled_from(["==", "!="]))]])
+            else:
+                conds.append(["cmp", [lit(draw(st.integers(-1, 2))), v, lit(draw(st.integers(1, 5)))],
+                              [draw(st.sampled_from(["<", "<="])), draw(st.sampled_from(["<", "<=", "!="]))]])
+        else:
+            conds.append(gen_c(draw, sc, env, d))
+    return conds
+
+
+def gen_lcomp(draw, sc, env, d, elt_ty="i"):
+    it, tgt, lv = gen_iter(draw, sc, env, max(d - 1, 0))
+    sc2 = {**sc, **lv}
+    if elt_ty == "i" and "i" not in lv.values():
+        elt = call("len", var(next(iter(lv)))) if draw(st.booleans()) else gen_i(draw, sc2, env, max(d - 1, 0))
+    else:
+        elt = gen(draw, elt_ty, sc2, env, max(d - 1, 0)) if elt_ty != "X" else ["tuple", [var(x) for x in lv]]
+    return ["lcomp", elt, tgt, it, gen_conds(draw, sc2, env, max(d - 1, 0), lv)]
+
+
+def gen_L(draw, sc, env, d):
+    leaves = [(2, lambda: ["list", [lit(draw(SMALL)) for _ in range(draw(st.integers(0, 4)))]])]
+    lv = names_of(sc, "L")
+    if lv:
+        leaves.append((4, lambda: var(draw(st.sampled_from(lv)))))
+    if d <= 0:
+        return W(draw, leaves)
+    d1 = d - 1
+    return W(draw, leaves + [
+        (4, lambda: ["list", seq_items(draw, sc, env, d1)]),
+        (5, lambda: gen_lcomp(draw, sc, env, d)),
+        (2, lambda: ["bin", "+", gen_L(draw, sc, env, d1), gen_L(draw, sc, env, d1)]),
+        (1, lambda: ["bin", "*", gen_L(draw, sc, env, d1), lit(draw(st.integers(0, 3)))]),
+        (1, lambda: ["bin", "*", lit(draw(st.integers(0, 3))), gen_L(draw, sc, env, d1)]),
+        (3, lambda: ["sub", gen_L(draw, sc, env, d1), slice_idx(draw)]),
+        (2, lambda: call("list", W(draw, [(1, lambda: gen_T(draw, sc, env, d1)),
+                                          (1, lambda: call("range", lit(draw(st.integers(0, 4))))),
+                                          (1, lambda: ["call", ["attr", gen_D(draw, sc, env, d1), "values"], []])]))),
+        (1, lambda: ["ife", gen_c(draw, sc, env, d1), gen_L(draw, sc, env, d1), gen_L(draw, sc, env, d1)]),
+    ])
+
+
+def gen_T(draw, sc, env, d):
+    leaves = [(2, lambda: ["tuple", [lit(draw(SMALL)) for _ in range(draw(st.integers(0, 4)))]])]
+    tv = names_of(sc, "T")
+    if tv:
+        leaves.append((4, lambda: var(draw(st.sampled_from(tv)))))
+    if d <= 0:
+        return W(draw, leaves)
+    d1 = d - 1
+    return W(draw, leaves + [
+        (4, lambda: ["tuple", [gen_i(draw, sc, env, d1) for _ in range(draw(st.integers(0, 4)))]]),
+        (3, lambda: ["sub", gen_T(draw, sc, env, d1), slice_idx(draw)]),
+        (2, lambda: call("tuple", gen_L(draw, sc, env, d1))),
+        (1, lambda: ["ife", gen_c(draw, sc, env, d1), gen_T(draw, sc, env, d1), gen_T(draw, sc, env, d1)]),
+        (1, lambda: ["bin", "+", gen_T(draw, sc, env, d1), gen_T(draw, sc, env, d1)]),
+    ])
+
+
+def gen_D(draw, sc, env, d):
+    def literal(dd):
+        keys = draw(st.lists(st.sampled_from(KEYS), max_size=3, unique=True))
+        items = [[lit(k), gen_i(draw, sc, env, dd)] for k in keys]
+        dv = names_of(sc, "D")
+        if dv and draw(st.integers(0, 2)) == 0:
+            items.insert(draw(st.integers(0, len(items))), ["dstar", var(draw(st.sampled_from(dv)))])
+        return ["dict", items]
+
+    leaves = [(2, lambda: literal(0))]
+    dv = names_of(sc, "D")
+    if dv:
+        leaves.append((4, lambda: var(draw(st.sampled_from(dv)))))
+    if d <= 0:
+        return W(draw, leaves)
+    d1 = d - 1
+
+    def dcomp():
+        form = draw(st.integers(0, 2))
+        if form == 0:
+            k = env.fresh("t")
+            it, tgt, lv = lit(draw(st.sampled_from(["ab", "abc", "aab", ""]))), k, {k: "s"}
+        elif form == 1:
+            k, v = env.fresh("t"), env.fresh("t")
+            it, tgt, lv = ["call", ["attr", gen_D(draw, sc, env, d1), "items"], []], [k, v], {k: "s", v: "i"}
+        else:
+            k, v = env.fresh("t"), env.fresh("t")
+            it, tgt, lv = call("zip", lit(draw(st.sampled_from(["abc", "ab"]))), gen(draw, draw(st.sampled_from(["L", "T"])), sc, env, d1)), [k, v], {k: "s", v: "i"}
+        sc2 = {**sc, **lv}
+        return ["dcomp", var(k), gen_i(draw, sc2, env, d1), tgt, it, gen_conds(draw, sc2, env, d1, lv)]
+
+    return W(draw, leaves + [
+        (4, lambda: literal(d1)),
+        (4, dcomp),
+        (1, lambda: ["call", var("dict"), [["k", k, gen_i(draw, sc, env, d1)] for k in draw(st.lists(st.sampled_from(KEYS), max_size=3, unique=True))]]),
+        (1, lambda: ["call", var("dict"), [["p", gen_D(draw, sc, env, d1)]] + [["k", k, gen_i(draw, sc, env, d1)] for k in draw(st.lists(st.sampled_from(KEYS), max_size=2, unique=True))]]),
+    ])
+
+
+# ============================================================================ calls
+def gen_call(draw, fd, sc, env, d, valfn=None):
+    """A call of fd that binds correctly, in a random shape (positional / keyword / *seq / **dict)."""
+    valfn = valfn or (lambda: gen_i(draw, sc, env, d))
+    params = fd["params"]
+    positional = [p for p in params if p[1] in ("po", "n")]
+    min_k = max([i + 1 for i, p in enumerate(positional) if p[1] == "po" and p[2] is None], default=0)
+    k = draw(st.integers(min_k, len(positional)))
+    kws = [p[0] for p in positional[k:] if p[1] == "n" and (p[2] is None or draw(st.booleans()))]
+    kws += [p[0] for p in params if p[1] == "ko" and (p[2] is None or draw(st.booleans()))]
+    # required positional-or-keyword parameters after a skipped defaulted one must come by keyword: done above
+    npos = k + (draw(st.integers(0, 2)) if any(p[1] == "va" for p in params) and k == len(positional) else 0)
+    vals = [valfn() for _ in range(npos)]
+    args = []
+    i = 0
+    while i < len(vals):
+        if draw(st.integers(0, 4)) == 0:
+            n = draw(st.integers(0, min(3, len(vals) - i)))
+            args.append(["s", [draw(st.sampled_from(["list", "tuple", "list"])), vals[i:i + n]]])
+            i += n
+        else:
+            args.append(["p", vals[i]])
+            i += 1
+    if any(p[1] == "kw" for p in params) and draw(st.booleans()):
+        kws.append(draw(st.sampled_from(["zz", "yy"])))
+    kws = list(draw(st.permutations(kws)))
+    i = 0
+    while i < len(kws):
+        if draw(st.integers(0, 4)) == 0:
+            n = draw(st.integers(0, min(3, len(kws) - i)))
+            args.append(["d", ["dict", [[lit(x), valfn()] for x in kws[i:i + n]]]])
+            i += n
+        else:
+            args.append(["k", kws[i], valfn()])
+            i += 1
+    return ["call", fd["callee"], args]
+
+
+def gen_sig(draw, sc, env, d, maxp=4, local=False):
+    """Parameters [name, kind, default]; defaults are int expressions evaluated at definition time."""
+    n_po = draw(st.sampled_from([0, 0, 0, 1]))
+    n_n = draw(st.integers(0 if n_po else 1, 2))
+    va = draw(st.integers(0, 3)) == 0
+    n_ko = draw(st.sampled_from([0, 0, 1, 2]))
+    kw = draw(st.integers(0, 4)) == 0
+    npos = n_po + n_n
+    ndef = draw(st.integers(0, npos))
+    names = iter(["p", "q", "u", "w", "x", "y"])
+    ps = []
+    for i in range(npos):
+        dflt = gen_i(draw, sc, env, d) if i >= npos - ndef else None
+        ps.append([next(names), "po" if i < n_po else "n", dflt])
+    if va:
+        ps.append(["r", "va", None])
+    for i in range(n_ko):
+        ps.append([next(names), "ko", gen_i(draw, sc, env, d) if draw(st.booleans()) else None])
+    if kw:
+        ps.append(["kw", "kw", None])
+    return ps
+
+
+def sig_scope(ps):
+    sc = {}
+    for name, kind, _ in ps:
+        sc[name] = {"po": "i", "n": "i", "ko": "i", "va": "T", "kw": "D"}[kind]
+    return sc
+
+
+# ============================================================================ module level definitions
+def gen_func(draw, env, name=None):
+    """def fN(sig): [constant ifs with early returns]; [local assignments]; return int expression."""
+    name = name or env.fresh("f")
+    if draw(st.integers(0, 5)) == 0:
+        # bounded recursion; both branches return (code after a return is still traced by cohdl)
+        ps = [["n", "n", None], ["acc", "n", lit(draw(SMALL))]]
+        step = ["bin", draw(st.sampled_from(["+", "*", "-"])), var("acc"), var("n")]
+        rec_call = ["call", var(name), [["p", ["bin", "-", var("n"), lit(1)]], draw(st.sampled_from([["p", step], ["k", "acc", step]]))]]
+        body = [["if", ["boolop", "or", [["cmp", [var("n"), lit(0)], ["<="]], ["cmp", [var("n"), lit(6)], [">"]]]],
+                 [["return", var("acc")]], [["return", rec_call]]]]
+        env.funcs.append({"callee": var(name), "params": [["n", "n", None]], "ret": "i", "tag": "recursive", "small": True})
+        return ["func", name, ps, body]
+    ps = gen_sig(draw, {}, env, 0)
+    sc = sig_scope(ps)
+    body = fn_body(draw, sc, env, 2, allow_recursion=None)
+    env.funcs.append({"callee": var(name), "params": ps, "ret": "i", "tag": "modfunc"})
+    return ["func", name, ps, body]
+
+
+def fn_body(draw, sc, env, d, allow_recursion=None):
+    body = []
+    sc = dict(sc)
+    for _ in range(draw(st.integers(0, 2))):
+        form = draw(st.integers(0, 3))
+        if form == 0:  # early return under a constant condition
+            body.append(["if", gen_c(draw, sc, env, 1), [["return", gen_i(draw, sc, env, 1)]], []])
+        elif form == 1:  # if / elif / else all returning
+            body.append(["if", gen_c(draw, sc, env, 1), [["return", gen_i(draw, sc, env, 1)]],
+                         [["if", gen_c(draw, sc, env, 1), [["return", gen_i(draw, sc, env, 1)]],
+                           [["return", gen_i(draw, sc, env, 1)]]]]])
+            return body
+        elif form == 2:  # local assignment
+            n = env.fresh("l")
+            ty = draw(st.sampled_from(["i", "i", "b", "L", "T"]))
+            body.append(["assign", n, gen(draw, ty, sc, env, 1)])
+            sc[n] = ty
+        else:  # branch-local definitions, merged name
+            n = env.fresh("l")
+            body.append(["if", gen_c(draw, sc, env, 1), [["assign", n, gen_i(draw, sc, env, 1)]],
+                         [["assign", n, gen_i(draw, sc, env, 1)]]])
+            sc[n] = "i"
+    body.append(["return", gen_i(draw, sc, env, d)])
+    return body
+
+
+def gen_factory(draw, env):
+    """Closure factory: def mkN(n[, m=..]): def inner(x[, y=default using n]): [nonlocal n]; return expr; return inner"""
+    name = env.fresh("mk")
+    outer = [["n", "n", None]] + ([["m", "n", lit(draw(SMALL))]] if draw(st.booleans()) else [])
+    osc = sig_scope(outer)
+    inner_ps = [["x", "n", None]]
+    if draw(st.integers(0, 2)) == 0:
+        inner_ps.append(["y", "n", gen_i(draw, osc, env, 1)])
+    isc = {**osc, **sig_scope(inner_ps)}
+    nl = ["n"] if draw(st.integers(0, 2)) == 0 else []
+    form = draw(st.integers(0, 2))
+    if form == 0:
+        body = [["def", "inner", inner_ps, nl, [["return", gen_i(draw, isc, env, 2)]]], ["return", var("inner")]]
+    elif form == 1:
+        body = [["return", ["lambda", [[p[0], p[2]] for p in inner_ps], gen_i(draw, isc, env, 2)]]]
+    else:  # two levels
+        body = [["def", "mid", [["z", "n", None]], [],
+                 [["def", "inner", inner_ps, nl, [["return", gen_i(draw, {**isc, "z": "i"}, env, 2)]]],
+                  ["return", var("inner")]]],
+                ["return", call("mid", gen_i(draw, osc, env, 1))]]
+    fd = {"name": name, "outer": outer, "inner": inner_ps}
+    env.factories.append(fd)
+    return ["func", name, outer, body]
+
+
+def gen_class(draw, env):
+    """One class (optionally derived from an earlier one) from a parametrised template."""
+    name = env.fresh("C")
+    bases = sorted(env.classes)
+    base = draw(st.sampled_from(bases)) if bases and draw(st.integers(0, 3)) else None
+    bd = env.classes.get(base)
+    members = []
+    desc = {"name": name, "base": base, "fields": list(bd["fields"]) if bd else [], "methods": dict(bd["methods"]) if bd else {},
+            "props": list(bd["props"]) if bd else [], "cattrs": list(bd["cattrs"]) if bd else [],
+            "init": bd["init"] if bd else None, "call": bd["call"] if bd else None, "bool": bd["bool"] if bd else False,
+            "len": bd["len"] if bd else False, "getitem": bd["getitem"] if bd else False,
+            "unary": list(bd["unary"]) if bd else [], "mro": [name] + (bd["mro"] if bd else []),
+            "ops": set(bd["ops"]) if bd else set(), "cmps": set(bd["cmps"]) if bd else set(),
+            "own_rbin": [], "own_cmp": []}
+    # class attributes
+    if draw(st.booleans()):
+        k = draw(st.sampled_from(["K", "J"]))
+        members.append(["cattr", k, lit(draw(SMALL))])
+        if k not in desc["cattrs"]:
+            desc["cattrs"].append(k)
+    selfsc = lambda: {f"self.{f}": "i" for f in desc["fields"]}  # noqa: E731
+
+    def self_i(sc, d=1):
+        """int expression over parameters and self.<field> / self.K."""
+        e = gen_i(draw, {**sc, **{f"self.{f}": "i" for f in desc["fields"]}, **{f"self.{c}": "i" for c in desc["cattrs"]}}, env, d)
+        return e
+
+    # __init__
+    if bd is None or draw(st.integers(0, 2)):
+        ps = [["v", "n", None]]
+        if draw(st.booleans()):
+            ps.append(["w", draw(st.sampled_from(["n", "ko"])), lit(draw(SMALL)) if draw(st.booleans()) else None])
+        body = []
+        newf = []
+        if bd is not None:
+            # super().__init__ with a binding-correct call
+            body.append(["expr", gen_call(draw, {"callee": ["attr", call("super"), "__init__"], "params": bd["init"]}, sig_scope(ps), env, 1)])
+        for f in (["v", "w"] if bd is None else [draw(st.sampled_from(["x", "y"]))]):
+            if f in ("v", "w") and not any(p[0] == f for p in ps):
+                continue
+            fld = f if f not in desc["fields"] else f + "2"
+            src = var(f) if any(p[0] == f for p in ps) else gen_i(draw, sig_scope(ps), env, 1)
+            body.append(["assign", f"self.{fld}", src if draw(st.integers(0, 2)) else ["bin", "+", src, lit(1)]])
+            newf.append(fld)
+        members.append(["method", "__init__", None, ps, body or [["pass"]]])
+        desc["init"] = ps
+        desc["fields"] += [f for f in newf if f not in desc["fields"]]
+    # methods
+    for mname in draw(st.lists(st.sampled_from(["m", "g"]), max_size=2, unique=True)):
+        ps = gen_sig(draw, {}, env, 0)
+        sc = sig_scope(ps)
+        body = []
+        ret = self_i(sc, 2)
+        if mname in desc["methods"] and draw(st.integers(0, 3)):
+            # override that delegates to the inherited implementation through super()
+            sup = gen_call(draw, {"callee": ["attr", call("super"), mname], "params": desc["methods"][mname]["params"]}, sc, env, 0)
+            ret = ["bin", draw(st.sampled_from(["+", "-", "*"])), sup, ret]
+        if draw(st.integers(0, 3)) == 0:
+            body.append(["if", gen_c(draw, sc, env, 1), [["return", self_i(sc, 1)]], []])
+        body.append(["return", ret])
+        members.append(["method", mname, None, ps, body])
+        desc["methods"][mname] = {"params": ps, "ret": "i", "deco": None}
+    if draw(st.integers(0, 2)) == 0:
+        ps = gen_sig(draw, {}, env, 0)
+        members.append(["method", "sm", "staticmethod", ps, [["return", gen_i(draw, sig_scope(ps), env, 2)]]])
+        desc["methods"]["sm"] = {"params": ps, "ret": "i", "deco": "staticmethod"}
+    if draw(st.integers(0, 2)) == 0:
+        ps = gen_sig(draw, {}, env, 0)
+        sc = sig_scope(ps)
+        ret = gen_i(draw, {**sc, **{f"cls.{c}": "i" for c in desc["cattrs"]}}, env, 2)
+        if draw(st.booleans()):
+            ret = ["tuple", [["attr", var("cls"), "__name__"], ret]]
+        members.append(["method", "cm", "classmethod", ps, [["return", ret]]])
+        desc["methods"]["cm"] = {"params": ps, "ret": "i" if ret[0] != "tuple" else "X", "deco": "classmethod"}
+    # property (optionally with a setter used from __init__)
+    if desc["fields"] and draw(st.integers(0, 1)) == 0:
+        members.append(["prop", "pr", [["return", self_i({}, 2)]], None])
+        if "pr" not in desc["props"]:
+            desc["props"].append("pr")
+    # __call__
+    if draw(st.integers(0, 2)) == 0:
+        ps = gen_sig(draw, {}, env, 0)
+        members.append(["method", "__call__", None, ps, [["return", self_i(sig_scope(ps), 2)]]])
+        desc["call"] = ps
+    # truthiness / len / getitem / unary
+    if draw(st.integers(0, 2)) == 0 and desc["fields"]:
+        members.append(["method", "__bool__", None, [], [["return", ["cmp", [var(f"self.{desc['fields'][0]}"), lit(draw(SMALL))], [draw(st.sampled_from(CMPOPS))]]]]])
+        desc["bool"] = True
+    if draw(st.integers(0, 3)) == 0:
+        members.append(["method", "__len__", None, [], [["return", lit(draw(st.integers(0, 3)))]]])
+        desc["len"] = True
+    if draw(st.integers(0, 2)) == 0:
+        members.append(["method", "__getitem__", None, [["i", "n", None]], [["return", ["tuple", [lit(name + ".getitem"), var("i")]]]]])
+        desc["getitem"] = True
+    for u, dn in (("-", "__neg__"), ("+", "__pos__"), ("~", "__invert__"), ("abs", "__abs__")):
+        if draw(st.integers(0, 4)) == 0:
+            members.append(["method", dn, None, [], [["return", ["tuple", [lit(f"{name}.{dn}")] + [var(f"self.{f}") for f in desc["fields"][:1]]]]]])
+            if u not in desc["unary"]:
+                desc["unary"].append(u)
+    # binary operators / comparisons with NotImplemented behaviours
+    others = sorted(env.classes) + [name]
+
+    def behaviour(tag, sym=None):
+        """Body of an operator method: value / NotImplemented / NotImplemented unless the other operand qualifies."""
+        b = draw(st.sampled_from(["val", "val", "val", "ni", "int", "cls", "cls"]))
+        fld = [var(f"self.{f}") for f in desc["fields"][:1]]
+        if sym is not None:  # comparison -> bool
+            const = lit(draw(st.booleans()))
+            use_field = bool(fld) and draw(st.booleans())
+            mk = lambda o: ["cmp", [fld[0], o], [sym]] if use_field else const  # noqa: E731
+        else:
+            mk = lambda o: ["tuple", [lit(tag)] + fld]  # noqa: E731
+        if b == "val":
+            return [["return", mk(lit(draw(SMALL)))]]
+        if b == "ni":
+            return [["return", var("NotImplemented")]]
+        if b == "int":
+            return [["if", call("isinstance", var("other"), var("int")), [["return", mk(var("other"))]], []],
+                    ["return", var("NotImplemented")]]
+        c = draw(st.sampled_from(others))
+        cd = desc if c == name else env.classes[c]
+        o = ["attr", var("other"), cd["fields"][0]] if cd["fields"] else lit(0)
+        return [["if", call("isinstance", var("other"), var(c)), [["return", mk(o)]], []],
+                ["return", var("NotImplemented")]]
+
+    inherited_ops = sorted(desc["ops"])
+    inherited_cmps = sorted(desc["cmps"])
+    bin_syms = draw(st.lists(st.sampled_from(sorted(OVL_BIN)), max_size=3, unique=True))
+    if inherited_ops and draw(st.integers(0, 3)):
+        bin_syms = list(dict.fromkeys(draw(st.lists(st.sampled_from(inherited_ops), min_size=1, max_size=2, unique=True)) + bin_syms))[:3]
+    cmp_syms = draw(st.lists(st.sampled_from(sorted(OVL_CMP)), max_size=3, unique=True))
+    if inherited_cmps and draw(st.integers(0, 3)):
+        mirrored = [{"<": ">", ">": "<", "<=": ">=", ">=": "<="}.get(c, c) for c in inherited_cmps]
+        cmp_syms = list(dict.fromkeys(draw(st.lists(st.sampled_from(sorted(set(inherited_cmps + mirrored))), min_size=1, max_size=2, unique=True)) + cmp_syms))[:3]
+    for sym in bin_syms:
+        nm = OVL_BIN[sym]
+        which = draw(st.sampled_from(["f", "r", "fr", "fr"]))
+        if "f" in which:
+            members.append(["method", f"__{nm}__", None, [["other", "n", None]], behaviour(f"{name}.__{nm}__")])
+        if "r" in which:
+            members.append(["method", f"__r{nm}__", None, [["other", "n", None]], behaviour(f"{name}.__r{nm}__")])
+            desc["own_rbin"].append(sym)
+        desc["ops"].add(sym)
+    for sym in cmp_syms:
+        members.append(["method", f"__{OVL_CMP[sym]}__", None, [["other", "n", None]], behaviour("", sym)])
+        desc["cmps"].add(sym)
+        desc["own_cmp"].append(sym)
+    env.classes[name] = desc
+    return ["class", name, [base] if base else [], members]
+
+
+def _fix_self(node):
+    """Variables named 'self.x' / 'cls.K' were used as typed scope entries: turn them into attribute nodes."""
+    if isinstance(node, list):
+        if len(node) == 2 and node[0] == "var" and isinstance(node[1], str) and "." in node[1]:
+            a, b = node[1].split(".", 1)
+            return ["attr", var(a), b]
+        return [_fix_self(x) for x in node]
+    return node
+
+
+# ============================================================================ object expressions
+def gen_obj(draw, sc, env, d, cls=None):
+    on = [n for n in obj_names(sc) if cls is None or sc[n] == f"o:{cls}"]
+    if on and (d <= 0 or draw(st.integers(0, 2))):
+        return var(draw(st.sampled_from(on))), sc[on[0]][2:] if len(on) == 1 else None
+    cls = cls or draw(st.sampled_from(sorted(env.classes)))
+    return ctor(draw, cls, sc, env, max(d - 1, 0)), cls
+
+
+def ctor(draw, cls, sc, env, d):
+    cd = env.classes[cls]
+    return gen_call(draw, {"callee": var(cls), "params": cd["init"] or []}, sc, env, d)
+
+
+def _obj_var(draw, sc, env, pred=lambda cd: True):
+    cand = [n for n in obj_names(sc) if pred(env.classes[sc[n][2:]])]
+    if not cand:
+        return None, None
+    n = draw(st.sampled_from(cand))
+    return n, env.classes[sc[n][2:]]
+
+
+def obj_int(draw, sc, env, d):
+    n, cd = _obj_var(draw, sc, env)
+    opts = []
+    if cd["fields"]:
+        opts.append((3, lambda: ["attr", var(n), draw(st.sampled_from(cd["fields"]))]))
+    if cd["cattrs"]:
+        opts.append((1, lambda: ["attr", var(n) if draw(st.booleans()) else var(cd["name"]), draw(st.sampled_from(cd["cattrs"]))]))
+    if cd["props"]:
+        opts.append((3, lambda: ["attr", var(n), draw(st.sampled_from(cd["props"]))]))
+    mi = [m for m, md in cd["methods"].items() if md["ret"] == "i"]
+    if mi:
+        def mcall():
+            m = draw(st.sampled_from(sorted(mi)))
+            md = cd["methods"][m]
+            base = var(n)
+            if md["deco"] in ("staticmethod", "classmethod") and draw(st.booleans()):
+                base = var(cd["name"])
+            return gen_call(draw, {"callee": ["attr", base, m], "params": md["params"]}, sc, env, d)
+        opts.append((5, mcall))
+    if cd["call"] is not None:
+        opts.append((3, lambda: gen_call(draw, {"callee": var(n), "params": cd["call"]}, sc, env, d)))
+    if cd["len"]:
+        opts.append((1, lambda: call("len", var(n))))
+    if not opts:
+        return lit(draw(SMALL))
+    return W(draw, opts)
+
+
+def obj_bool(draw, sc, env, d):
+    n, cd = _obj_var(draw, sc, env)
+    tys = sorted(env.classes) + ["int", "object"]
+    opts = [
+        (2, lambda: call("isinstance", var(n), var(draw(st.sampled_from(tys))))),
+        (1, lambda: call("isinstance", var(n), ["tuple", [var(t) for t in draw(st.lists(st.sampled_from(tys), min_size=1, max_size=2))]])),
+        (2, lambda: ["cmp", [call("type", var(n)), var(draw(st.sampled_from(tys)))], [draw(st.sampled_from(["is", "is not"]))]]),
+        (1, lambda: call("issubclass", call("type", var(n)), var(draw(st.sampled_from(tys))))),
+        (1, lambda: ["cmp", [var(n), var(draw(st.sampled_from(obj_names(sc))))], [draw(st.sampled_from(["is", "is not"]))]]),
+    ]
+    if cd["bool"]:
+        opts += [(2, lambda: call("bool", var(n))), (2, lambda: ["un", "not", var(n)])]
+    return W(draw, opts)
+
+
+def gen_dispatch(draw, sc, env):
+    """x <op> y with at least one instance operand: exercises forward / reflected / NotImplemented dispatch."""
+    on = obj_names(sc)
+    # base instance <op> derived instance, with an operator the derived class (re)defines: CPython tries the
+    # reflected method of the derived right operand first
+    pairs = [(x, y) for x in on for y in on
+             if sc[x] != sc[y] and sc[x][2:] in env.classes[sc[y][2:]]["mro"]
+             and (env.classes[sc[y][2:]]["own_rbin"] or env.classes[sc[y][2:]]["own_cmp"])]
+    if pairs and draw(st.integers(0, 3)):
+        x, y = draw(st.sampled_from(pairs))
+        cd = env.classes[sc[y][2:]]
+        if cd["own_rbin"] and (not cd["own_cmp"] or draw(st.booleans())):
+            return ["bin", draw(st.sampled_from(cd["own_rbin"])), var(x), var(y)], "bin"
+        mirror = {"<": ">", ">": "<", "<=": ">=", ">=": "<="}
+        sym = draw(st.sampled_from(cd["own_cmp"]))
+        return ["cmp", [var(x), var(y)], [mirror.get(sym, sym)]], "cmp"
+    # reflected fallback: the left operand's class has no forward method for an operator the right one reflects
+    refl = [(x, y, sym) for x in on for y in on for sym in env.classes[sc[y][2:]]["own_rbin"]
+            if sym not in env.classes[sc[x][2:]]["ops"]]
+    if refl and draw(st.integers(0, 2)) == 0:
+        x, y, sym = draw(st.sampled_from(refl))
+        return ["bin", sym, var(x), var(y)], "bin"
+    a = var(draw(st.sampled_from(on)))
+    other = W(draw, [(6, lambda: var(draw(st.sampled_from(on)))), (2, lambda: lit(draw(SMALL))),
+                     (1, lambda: lit(None)), (1, lambda: lit(draw(st.booleans())))])
+    lhs, rhs = (a, other) if draw(st.integers(0, 3)) else (other, a)
+    ops_avail = set()
+    cmps_avail = set()
+    for e in (lhs, rhs):
+        if e[0] == "var":
+            ops_avail |= env.classes[sc[e[1]][2:]]["ops"]
+            cmps_avail |= env.classes[sc[e[1]][2:]]["cmps"]
+    kind = draw(st.sampled_from(["bin", "bin", "cmp", "cmp", "un"]))
+    if kind == "bin":
+        pool = sorted(ops_avail) * 3 + sorted(OVL_BIN)
+        return ["bin", draw(st.sampled_from(pool)), lhs, rhs], "bin"
+    if kind == "cmp":
+        pool = sorted(cmps_avail) * 3 + sorted(OVL_CMP)
+        if draw(st.integers(0, 4)) == 0:
+            third = var(draw(st.sampled_from(on)))
+            return ["cmp", [lhs, rhs, third], [draw(st.sampled_from(pool)), draw(st.sampled_from(pool))]], "cmp"
+        return ["cmp", [lhs, rhs], [draw(st.sampled_from(pool))]], "cmp"
+    u = draw(st.sampled_from(["-", "+", "~", "abs", "idx", "slice"]))
+    if u == "abs":
+        return call("abs", a), "un"
+    if u == "idx":
+        return ["sub", a, W(draw, [(2, lambda: lit(draw(SMALL))), (1, lambda: ["tuple", [lit(1), lit(2)]]), (1, lambda: lit("k"))])], "un"
+    if u == "slice":
+        return ["sub", a, slice_idx(draw)], "un"
+    return ["un", u, a], "un"
+
+
+# ============================================================================ statements of run()
+def gen_stmt(draw, sc, env):
+    """-> {"s": stmt, "out": [data valued names], "fam": family}; updates sc."""
+    d = draw(st.sampled_from([1, 2, 2, 3]))
+
+    def assign(ty):
+        def f():
+            n = env.fresh()
+            e = gen(draw, ty, sc, env, d)
+            sc[n] = ty
+            return {"s": ["assign", n, e], "out": [n], "fam": f"assign:{ty}"}
+        return f
+
+    def unpack():
+        k = draw(st.integers(1, 4))
+        star = draw(st.integers(0, 2)) > 0
+        form = draw(st.sampled_from(["tuple", "list", "tuplevar", "listvar", "range", "str", "nested", "call"]))
+        names = [env.fresh() for _ in range(k)]
+        si = draw(st.integers(0, k - 1)) if star else None
+        target = [(["*", n] if i == si else n) for i, n in enumerate(names)]
+        extra = draw(st.integers(0, 2)) if star else 0
+        total = (k - 1 if star else k) + extra
+        tys = {n: "i" for n in names}
+        pre = []
+        if form in ("tuple", "list", "tuplevar", "listvar", "call"):
+            src = [form.replace("var", "") if form != "call" else "tuple", [gen_i(draw, sc, env, 1) for _ in range(total)]]
+            if form == "call":
+                src = call(draw(st.sampled_from(["tuple", "list"])), ["list", src[1]])
+        elif form == "range":
+            src = call("range", lit(total))
+        elif form == "str":
+            src = lit("abcdefg"[:total])
+            tys = {n: "s" for n in names}
+        else:
+            inner = [env.fresh(), env.fresh()]
+            istar = draw(st.booleans())
+            itarget = [inner[0], ["*", inner[1]]] if istar else inner
+            isrc = ["tuple" if draw(st.booleans()) else "list", [gen_i(draw, sc, env, 1) for _ in range(2 + (draw(st.integers(0, 2)) if istar else 0))]]
+            pos = draw(st.integers(0, len(target)))
+            items = [gen_i(draw, sc, env, 1) for _ in range(total)]
+            # position of the nested element inside the source must line up with the target
+            tpos = pos
+            spos = pos if (si is None or pos <= si) else pos - 1 + extra
+            target.insert(tpos, itarget)
+            items.insert(spos, isrc)
+            if si is not None and tpos <= si:
+                si += 1
+            src = [draw(st.sampled_from(["tuple", "list"])), items]
+            tys[inner[0]] = "i"
+            tys[inner[1]] = "L" if istar else "i"
+            names = names + inner
+        if form in ("tuplevar", "listvar"):
+            tmp = env.fresh()
+            pre = [["assign", tmp, src]]
+            sc[tmp] = "T" if form == "tuplevar" else "L"
+            src = var(tmp)
+        if star:
+            starname = [t[1] for t in target if isinstance(t, list) and t and t[0] == "*"][0]
+            tys[starname] = "L" if form != "str" else "X"
+        stmt = ["unpack", target, src]
+        for n in names:
+            sc[n] = tys[n]
+        res = {"s": stmt, "out": names, "fam": "unpack"}
+        if pre:
+            res["pre"] = {"s": pre[0], "out": [pre[0][1]], "fam": f"assign:{sc[pre[0][1]]}"}
+        return res
+
+    def massign():
+        a, b = env.fresh(), env.fresh()
+        ty = draw(st.sampled_from(["i", "L", "T"]))
+        e = gen(draw, ty, sc, env, d)
+        sc[a] = sc[b] = ty
+        return {"s": ["massign", [a, b], e], "out": [a, b], "fam": "massign"}
+
+    def forloop():
+        it, tgt, lv = gen_iter(draw, sc, env, 1)
+        sc2 = {**sc, **lv}
+        body = []
+        if draw(st.integers(0, 2)) == 0:
+            n = env.fresh("l")
+            body.append(["assign", n, gen_i(draw, sc2, env, 1)])
+            sc2[n] = "i"
+        recs = ["rec", [lit(env.fresh("r"))] + [var(x) for x in lv] + [gen_i(draw, sc2, env, 1)]]
+        form = draw(st.integers(0, 3))
+        if form == 0:
+            body.append(["if", gen_c(draw, sc2, env, 1), [recs], [["rec", [lit(env.fresh("r")), gen_i(draw, sc2, env, 1)]]] if draw(st.booleans()) else []])
+        elif form == 1:
+            it2, tgt2, lv2 = gen_iter(draw, sc2, env, 0)
+            sc3 = {**sc2, **lv2}
+            body.append(["for", tgt2, it2, [["rec", [lit(env.fresh("r"))] + [var(x) for x in lv] + [var(x) for x in lv2] + [gen_i(draw, sc3, env, 1)]]]])
+        else:
+            body.append(recs)
+        return {"s": ["for", tgt, it, body], "out": [], "fam": "for"}
+
+    def constif():
+        n = env.fresh()
+        ty = draw(st.sampled_from(["i", "b", "L"]))
+        c = gen_c(draw, sc, env, d)
+        form = draw(st.integers(0, 2))
+        then = [["assign", n, gen(draw, ty, sc, env, 1)]]
+        if form == 0:
+            orelse = [["assign", n, gen(draw, ty, sc, env, 1)]]
+        elif form == 1:
+            orelse = [["if", gen_c(draw, sc, env, 1), [["assign", n, gen(draw, ty, sc, env, 1)]], [["assign", n, gen(draw, ty, sc, env, 1)]]]]
+        else:
+            m = env.fresh("l")
+            then = [["assign", m, gen_i(draw, sc, env, 1)], ["assign", n, gen(draw, ty, {**sc, m: "i"}, env, 1)]]
+            orelse = [["assign", n, gen(draw, ty, sc, env, 1)]]
+        sc[n] = ty
+        return {"s": ["if", c, then, orelse], "out": [n], "fam": "constif"}
+
+    def localfn():
+        """Local def / lambda (closure over run()'s variables) + calls."""
+        name = env.fresh("g")
+        ps = gen_sig(draw, sc, env, 1, local=True)
+        if draw(st.integers(0, 2)):
+            ps = [p for p in ps if not (p[1] == "ko" and p[2] is None)]  # required kw-only: known to be rejected
+        isc = {**{k: v for k, v in sc.items() if v in ("i", "b", "L", "T", "D")}, **sig_scope(ps)}
+        form = draw(st.sampled_from(["def", "def", "lambda"]))
+        ret = gen_i(draw, isc, env, 2)
+        if draw(st.integers(0, 2)) == 0:
+            ret = ["tuple", [var(p[0]) for p in ps]]
+        rt = "i" if ret[0] != "tuple" else "X"
+        if form == "def":
+            nl = []
+            iv = names_of(sc, "i")
+            if iv and draw(st.integers(0, 2)) == 0:
+                nl = [draw(st.sampled_from(iv))]
+                if rt == "i":
+                    ret = ["bin", "+", ret, var(nl[0])]
+            body = []
+            if draw(st.integers(0, 3)) == 0:
+                body.append(["if", gen_c(draw, isc, env, 1), [["return", gen_i(draw, isc, env, 1) if rt == "i" else ret]], []])
+            body.append(["return", ret])
+            stmt = ["def", name, ps, nl, body]
+        else:
+            np_ = draw(st.integers(1, 3))
+            nd_ = draw(st.integers(0, np_))
+            ps = [[nm, "n", gen_i(draw, sc, env, 1) if i >= np_ - nd_ else None] for i, nm in enumerate(["p", "q", "u"][:np_])]
+            isc = {**{k: v for k, v in sc.items() if v in ("i", "b", "L", "T", "D")}, **sig_scope(ps)}
+            ret = gen_i(draw, isc, env, 2) if rt == "i" else ["tuple", [var(p[0]) for p in ps]]
+            stmt = ["assign", name, ["lambda", [[p[0], p[2]] for p in ps], ret]]
+        fd = {"callee": var(name), "params": ps, "ret": rt, "tag": "local" + form}
+        sc.setdefault("__funcs__", [])
+        res = {"s": stmt, "out": [], "fam": "localfn:" + form}
+        sc[name] = "fn"
+        outn = env.fresh()
+        res["post"] = {"s": ["assign", outn, gen_call(draw, fd, sc, env, 1)], "out": [outn], "fam": "call:local" + form}
+        sc[outn] = rt
+        if rt == "i":
+            sc["__funcs__"] = sc["__funcs__"] + [fd]
+        return res
+
+    def closures():
+        """Functions created inside a comprehension: each must capture what CPython captures."""
+        n, out = env.fresh("h"), env.fresh()
+        i = env.fresh("t")
+        form = draw(st.integers(0, 2))
+        rng = call("range", lit(draw(st.integers(1, 3))))
+        if form == 0:
+            fs = ["lcomp", ["lambda", [["x", None]], ["bin", "+", var("x"), var(i)]], i, rng, []]
+        elif form == 1:
+            fs = ["lcomp", ["lambda", [["x", None], [i, var(i)]], ["bin", "+", var("x"), var(i)]], i, rng, []]
+        else:
+            fs = ["lcomp", ["lambda", [], ["bin", "*", var(i), lit(2)]], i, rng, []]
+        sc[n] = "fnlist"
+        j = env.fresh("t")
+        arg = [] if form == 2 else [["p", gen_i(draw, sc, env, 0)]]
+        res = {"s": ["assign", n, fs], "out": [], "fam": "closures"}
+        res["post"] = {"s": ["assign", out, ["lcomp", ["call", var(j), arg], j, var(n), []]], "out": [out], "fam": "call:closurelist"}
+        sc[out] = "L"
+        return res
+
+    def factory():
+        fd = draw(st.sampled_from(env.factories))
+        h, out = env.fresh("h"), env.fresh()
+        mk = gen_call(draw, {"callee": var(fd["name"]), "params": fd["outer"]}, sc, env, 1)
+        inner = {"callee": var(h), "params": fd["inner"], "ret": "i", "tag": "closure"}
+        sc[h] = "fn"
+        res = {"s": ["assign", h, mk], "out": [], "fam": "factory"}
+        res["post"] = {"s": ["assign", out, gen_call(draw, inner, sc, env, 1)], "out": [out], "fam": "call:closure"}
+        sc[out] = "i"
+        sc["__funcs__"] = sc.get("__funcs__", []) + [inner]
+        return res
+
+    def newobj():
+        cls = draw(st.sampled_from(sorted(env.classes)))
+        n = env.fresh("o")
+        e = ctor(draw, cls, sc, env, 1)
+        sc[n] = f"o:{cls}"
+        return {"s": ["assign", n, e], "out": [n], "fam": "ctor"}
+
+    def dispatch():
+        n = env.fresh()
+        e, kind = gen_dispatch(draw, sc, env)
+        sc[n] = "X"
+        return {"s": ["assign", n, e], "out": [n], "fam": "dispatch:" + kind}
+
+    def xdata():
+        n = env.fresh()
+        form = draw(st.integers(0, 5))
+        if form == 0:
+            e = gen_lcomp(draw, sc, env, 2, "X")
+        elif form == 1:
+            e = call("list", gen_iter(draw, sc, env, 1)[0])
+        elif form == 2:
+            e = ["tuple", [gen(draw, draw(st.sampled_from(["i", "b", "s", "n", "L", "T", "D"])), sc, env, 1) for _ in range(draw(st.integers(1, 3)))]]
+        elif form == 3:
+            e = ["bin", "/", gen_i(draw, sc, env, 1), lit(draw(st.sampled_from([1, 2, 4, -2])))]
+        elif form == 4:
+            e = ["list", [["list", [gen_i(draw, sc, env, 1)]], gen_T(draw, sc, env, 1), gen_D(draw, sc, env, 1)]]
+        else:
+            e = ["sub", ["list", [gen_L(draw, sc, env, 1), gen_L(draw, sc, env, 1)]], lit(draw(st.integers(-1, 1)))]
+        sc[n] = "X"
+        return {"s": ["assign", n, e], "out": [n], "fam": "assign:X"}
+
+    def objmisc():
+        """Bound methods / classes as first-class values."""
+        n, cd = _obj_var(draw, sc, env, lambda cd: any(md["ret"] == "i" and md["deco"] is None for md in cd["methods"].values()))
+        if n is None:
+            return assign("i")()
+        m = draw(st.sampled_from(sorted(k for k, md in cd["methods"].items() if md["ret"] == "i" and md["deco"] is None)))
+        bm, out = env.fresh("h"), env.fresh()
+        form = draw(st.integers(0, 1))
+        md = cd["methods"][m]
+        if form == 0:
+            res = {"s": ["assign", bm, ["attr", var(n), m]], "out": [], "fam": "boundmethod"}
+            post = gen_call(draw, {"callee": var(bm), "params": md["params"]}, sc, env, 1)
+        else:
+            res = {"s": ["assign", bm, ["attr", var(cd["name"]), m]], "out": [], "fam": "unboundmethod"}
+            post = gen_call(draw, {"callee": var(bm), "params": [["self", "po", None]] + md["params"]}, sc, env, 1)
+            # first positional argument is the instance
+            fixed = False
+            for a in post[2]:
+                if a[0] == "p":
+                    a[1] = var(n)
+                    fixed = True
+                    break
+                if a[0] == "s" and a[1][1]:
+                    a[1][1][0] = var(n)
+                    fixed = True
+                    break
+            if not fixed:
+                post[2].insert(0, ["p", var(n)])
+        sc[bm] = "fn"
+        res["post"] = {"s": ["assign", out, post], "out": [out], "fam": "call:" + res["fam"]}
+        sc[out] = "i"
+        return res
+
+    opts = [(6, assign("i")), (4, assign("b")), (1, assign("s")), (1, assign("n")), (4, assign("L")), (2, assign("T")),
+            (3, assign("D")), (3, xdata), (5, unpack), (1, massign), (4, forloop), (3, constif), (5, localfn), (2, closures)]
+    if getattr(env, "factories", None):
+        opts.append((3, factory))
+    if env.classes:
+        opts.append((5 if not obj_names(sc) else 2, newobj))
+    if obj_names(sc):
+        opts += [(14, dispatch), (2, objmisc)]
+    return W(draw, opts)
+
+
+@st.composite
+def program(draw):
+    env = Env()
+    defs = []
+    for _ in range(draw(st.integers(0, 2))):
+        n = env.fresh("G")
+        v = draw(SMALL)
+        env.consts[n] = v
+        defs.append(["const", n, lit(v)])
+    for _ in range(draw(st.integers(0, 2))):
+        defs.append(gen_func(draw, env))
+    for _ in range(draw(st.sampled_from([0, 0, 1]))):
+        defs.append(gen_factory(draw, env))
+    for _ in range(draw(st.sampled_from([0, 1, 2, 2, 3, 3]))):
+        defs.append(gen_class(draw, env))
+    sc = {}
+    stmts = []
+    if env.classes and draw(st.integers(0, 4)):
+        # instances first, so that the following statements can use them
+        first = []
+        derived = [c for c in sorted(env.classes) if env.classes[c]["base"]]
+        if derived and draw(st.integers(0, 2)):
+            dcls = draw(st.sampled_from(derived))
+            first = [draw(st.sampled_from(env.classes[dcls]["mro"][1:])), dcls]
+        for cls in first + draw(st.lists(st.sampled_from(sorted(env.classes)), min_size=0 if first else 1, max_size=2)):
+            n = env.fresh("o")
+            stmts.append({"s": ["assign", n, ctor(draw, cls, sc, env, 1)], "out": [n], "fam": "ctor"})
+            sc[n] = f"o:{cls}"
+    for _ in range(draw(st.integers(2, 7))):
+        r = gen_stmt(draw, sc, env)
+        for key in ("pre", None, "post"):
+            part = r.get(key) if key else r
+            if part:
+                stmts.append({"s": part["s"], "out": part["out"], "fam": part["fam"]})
+    # outputs: only plain data and instances
+    for s in stmts:
+        s["out"] = [n for n in s["out"] if sc.get(n) not in ("fn", "fnlist")]
+    return {"kind": "prog", "defs": _fix_self(defs), "stmts": _fix_self(stmts)}
+
+
+# ============================================================================ rendering a (sub)program
+from cv.gen import c10_render as R  # noqa: E402
+
+BUILTIN_NAMES = {"len", "min", "max", "abs", "range", "zip", "enumerate", "list", "tuple", "dict", "bool", "isinstance",
+                 "issubclass", "type", "any", "all", "super"}
+
+
+def result_expr(names):
+    return "(" + ", ".join(names) + ("," if len(names) == 1 else "") + ")"
+
+
+def out_names(stmts):
+    return [n for s in stmts for n in s["out"]]
+
+
+def build(case, stmts, H, result=None):
+    return H.module_source(R.rdefs(case["defs"]), R.rstmts([s["s"] for s in stmts]),
+                           result if result is not None else result_expr(out_names(stmts)))
+
+
+def drop(stmts, k):
+    """Remove statement k and everything that (transitively) uses a name it defines."""
+    dead = set(R.names_defined(stmts[k]["s"]))
+    keep = stmts[:k]
+    for s in stmts[k + 1:]:
+        if R.names_used(s["s"]) & dead:
+            dead |= set(R.names_defined(s["s"]))
+        else:
+            keep.append(s)
+    return keep
+
+
 def view(case):
-    return case
+    src = "\n".join(R.rdefs(case["defs"]) + ["def run():"] + ["    " + l for l in R.rstmts([s["s"] for s in case["stmts"]])]
+                    + ["    return " + result_expr(out_names(case["stmts"]))])
+    return {"kind": "prog", "source": src}
+
+
+# ============================================================================ feature classes (labels)
+def def_features(d):
+    f = set()
+    if d[0] == "func":
+        f.add("def:func")
+        _body_features(d[3], f)
+        if any(p[1] in ("po", "va", "ko", "kw") for p in d[2]):
+            f.add("def:rich_signature")
+    elif d[0] == "class":
+        f.add("def:class")
+        if d[2]:
+            f.add("def:inheritance")
+        for m in d[3]:
+            if m[0] == "prop":
+                f.add("def:property")
+            elif m[0] == "cattr":
+                f.add("def:classattr")
+            elif m[0] == "method":
+                if m[2]:
+                    f.add("def:" + m[2])
+                if m[1] == "__call__":
+                    f.add("def:__call__")
+                elif m[1].startswith("__r") and m[1] not in ("__rshift__",):
+                    f.add("def:reflected_op")
+                elif m[1].startswith("__") and m[1] != "__init__":
+                    f.add("def:operator")
+                _body_features(m[4], f)
+    return f
+
+
+def _body_features(body, f):
+    for s in body:
+        if s[0] == "if" and any(b[0] == "return" for b in s[2]):
+            f.add("def:early_return")
+        if s[0] == "def":
+            f.add("def:closure_factory")
+            if s[3]:
+                f.add("def:nonlocal")
+
+        def fn(n, closed):
+            if n[0] == "call" and n[1] == ["var", "super"]:
+                f.add("def:super")
+            if n[0] == "var" and n[1] == "NotImplemented":
+                f.add("def:NotImplemented")
+            if n[0] == "lambda":
+                f.add("def:closure_factory")
+
+        R.walk_stmt(s, fn)
+        if s[0] in ("if", "for", "def"):
+            _body_features(s[2] + s[3] if s[0] == "if" else (s[3] if s[0] == "for" else s[4]), f)
+
+
+def stmt_features(s):
+    f = set()
+    st_ = s["s"]
+    op = st_[0]
+    f.add({"assign": "s:assign", "massign": "s:multi_target", "unpack": "s:unpack", "for": "s:for", "if": "s:const_if",
+           "def": "s:local_def", "rec": "s:rec", "expr": "s:expr"}.get(op, "s:" + op))
+    if op == "unpack":
+        flat = R.rtarget(st_[1])
+        if "*" in flat:
+            f.add("s:star_unpack")
+        if "(" in flat:
+            f.add("s:nested_unpack")
+    if op == "def":
+        if st_[3]:
+            f.add("s:nonlocal")
+        if any(p[2] is not None for p in st_[2]):
+            f.add("s:local_default_arg")
+    if op == "for" and any(b[0] == "for" for b in st_[3]):
+        f.add("s:nested_for")
+
+    def fn(n, closed):
+        o = n[0]
+        if o == "bin":
+            f.add("e:binop")
+        elif o == "un":
+            f.add("e:not" if n[1] == "not" else "e:unary")
+        elif o == "cmp":
+            f.add("e:compare_chain" if len(n[2]) > 1 else ("e:is" if n[2][0] in ("is", "is not") else "e:compare"))
+        elif o == "boolop":
+            f.add("e:and_or")
+        elif o == "ife":
+            f.add("e:ifexp")
+        elif o == "attr":
+            f.add("e:attribute")
+        elif o == "call":
+            c = n[1]
+            if c[0] == "var" and c[1] in BUILTIN_NAMES:
+                f.add("e:builtin:" + c[1])
+            elif c[0] == "attr":
+                f.add("e:method_call")
+            else:
+                f.add("e:call")
+            for a in n[2]:
+                f.add({"p": "e:arg_positional", "k": "e:arg_keyword", "s": "e:arg_star", "d": "e:arg_dstar"}[a[0]])
+        elif o in ("tuple", "list"):
+            f.add("e:" + o)
+            if any(i[0] == "star" for i in n[1]):
+                f.add("e:star_in_" + o)
+        elif o == "dict":
+            f.add("e:dict")
+            if any(i[0] == "dstar" for i in n[1]):
+                f.add("e:dstar_in_dict")
+        elif o == "sub":
+            f.add("e:slice" if n[2][0] == "slice" else "e:subscript")
+        elif o == "lcomp":
+            f.add("e:listcomp")
+            if n[4]:
+                f.add("e:comp_condition")
+            if not isinstance(n[2], str):
+                f.add("e:comp_tuple_target")
+        elif o == "dcomp":
+            f.add("e:dictcomp")
+            if n[5]:
+                f.add("e:comp_condition")
+        elif o == "lambda":
+            f.add("e:lambda")
+            if any(p[1] is not None for p in n[1]):
+                f.add("e:lambda_default_arg")
+
+    R.walk_stmt(st_, fn)
+    return f
+
+
+# ============================================================================ the check
+def _first_bad_prefix(n, bad):
+    """Smallest k with bad(k) true (prefix of length k+1 fails); failure is monotone in the prefix length."""
+    lo, hi = 0, n - 1  # invariant: prefix hi+1 fails
+    while lo < hi:
+        mid = (lo + hi) // 2
+        if bad(mid):
+            hi = mid
+        else:
+            lo = mid + 1
+    return lo
+
+
+def check_program(case, H):
+    out = H.Outcome()
+    stmts = list(case["stmts"])
+    def_feat = {d[1]: def_features(d) for d in case["defs"]}
+
+    def feats(s):
+        f = stmt_features(s)
+        for n in R.names_used(s["s"]):
+            f |= def_feat.get(n, set())
+        return f
+
+    # ---- reference side: drop statements on which CPython itself raises (outcome unspecified there)
+    while True:
+        if not stmts:
+            out.status = "unspecified"
+            return out
+        exp, elog, m = H.run_cpython(build(case, stmts, H))
+        H.unload(m)
+        if not isinstance(exp, H.Raised):
+            break
+
+        def bad_native(k):
+            v, _, mm = H.run_cpython(build(case, stmts[:k + 1], H))
+            H.unload(mm)
+            return isinstance(v, H.Raised)
+
+        k = _first_bad_prefix(len(stmts), bad_native)
+        out.labels.append(f"cpython_raised:{exp.name}")
+        if H.is_binding_error(exp):
+            obs, _ = H.run_cohdl(build(case, stmts[:k + 1], H))
+            if isinstance(obs, H.Rejected):
+                out.labels.append("binding_error_confirmed_rejected")
+            else:
+                out.add({"gen": "prog", "kind": "accepts_invalid", "stmt": stmts[k]["fam"]},
+                        f"CPython: TypeError: {exp.msg}\ncohdl returned {obs!r}\n--- program:\n"
+                        + H.run_text(build(case, stmts[:k + 1], H)))
+        stmts = drop(stmts, k)
+
+    # ---- cohdl side: find and drop rejected statements (rejection is always allowed), keep the rest
+    pruned = False
+    guard = 0
+    while True:
+        if not stmts:
+            out.status = "rejected"
+            return out
+        obs, olog = H.run_cohdl(build(case, stmts, H))
+        if not isinstance(obs, H.Rejected):
+            break
+        guard += 1
+
+        def bad_traced(k):
+            return isinstance(H.run_cohdl(build(case, stmts[:k + 1], H))[0], H.Rejected)
+
+        k = _first_bad_prefix(len(stmts), bad_traced)
+        out.labels.append(f"rej_stmt:{stmts[k]['fam']}")
+        for f in feats(stmts[k]):
+            out.labels.append("rej:" + f)
+        out.counters["rejected_statements"] = out.counters.get("rejected_statements", 0) + 1
+        stmts = drop(stmts, k)
+        pruned = True
+        if guard > 12:
+            out.status = "rejected"
+            return out
+    if pruned:
+        exp, elog, m = H.run_cpython(build(case, stmts, H))
+        H.unload(m)
+        if isinstance(exp, H.Raised):
+            raise AssertionError("pruned program raised under CPython: " + exp.msg)
+
+    # ---- compare statement by statement
+    allf = set()
+    for s in stmts:
+        fs = feats(s)
+        allf |= fs
+        out.labels.append(f"acc_stmt:{s['fam']}")
+        for f in fs:
+            out.labels.append("acc:" + f)
+    out.counters["accepted_statements"] = len(stmts)
+    out.nontrivial = len(allf) >= 2
+    names = out_names(stmts)
+    if type(obs) is not tuple or len(obs) != len(names):
+        out.add({"gen": "prog", "kind": "shape"}, f"expected {exp!r}\nobserved {obs!r}")
+        return out
+    ev = dict(zip(names, exp))
+    ov = dict(zip(names, obs))
+    tainted = set()
+    for i, s in enumerate(stmts):
+        if R.names_used(s["s"]) & tainted:
+            tainted |= set(R.names_defined(s["s"]))
+            out.labels.append("skipped_dependent_of_finding")
+            continue
+        for n in s["out"]:
+            d = _diff(H, ev[n], ov[n])
+            if d:
+                sig, extra = _classify(case, stmts, i, d, H)
+                out.add(sig, f"{n}: expected {ev[n]!r}\n{' ' * len(n)}  observed {_show(H, ov[n])}\n{extra}--- program:\n"
+                        + H.run_text(build(case, stmts[:i + 1], H)))
+                tainted |= set(R.names_defined(s["s"]))
+                break
+    # ---- loop bodies are observed through rec(): compare the logs per loop
+    if elog != olog:
+        for i, s in enumerate(stmts):
+            if s["s"][0] != "for" or R.names_used(s["s"]) & tainted:
+                continue
+            tags = _rec_tags(s["s"])
+            a = [r for r in elog if r and r[0] in tags]
+            b = [r for r in olog if r and r[0] in tags]
+            d = H.first_diff(H.canon(a), H.canon(b))
+            if d:
+                kind = d[1]
+                sig = {"gen": "prog", "stmt": "for", "diff": "log_" + kind}
+                if not kind.startswith("leak"):
+                    sig.update({"iter": _node_tag(s["s"][2]), "target": "name" if isinstance(s["s"][1], str) else "tuple"})
+                out.add(sig, f"rec() log of the loop differs\nexpected {a!r}\nobserved {[tuple(_show(H, x) for x in r) for r in b]}\n"
+                        "--- program:\n" + H.run_text(build(case, stmts[:i + 1], H)))
+    return out
+
+
+def _rec_tags(s):
+    tags = set()
+    if s[0] == "rec":
+        tags.add(s[1][0][1])
+    elif s[0] == "for":
+        for b in s[3]:
+            tags |= _rec_tags(b)
+    elif s[0] == "if":
+        for b in s[2] + s[3]:
+            tags |= _rec_tags(b)
+    return tags
+
+
+def _show(H, v):
+    leaked, inner = H.unwrap_leak(v)
+    return f"<{type(v).__module__}.{type(v).__name__} wrapping {inner!r}>" if leaked else repr(v)
+
+
+def _diff(H, e, o):
+    """None or the kind of the first structural difference (leaked frontend objects reported as such)."""
+    d = H.first_diff(H.canon(e), H.canon(o))
+    return d[1] if d else None
+
+
+def _node_tag(n):
+    o = n[0]
+    if o == "bin":
+        return "bin"
+    if o == "un":
+        return "un:" + n[1]
+    if o == "cmp":
+        return "cmp_chain" if len(n[2]) > 1 else ("is" if n[2][0] in ("is", "is not") else "cmp")
+    if o == "call":
+        c = n[1]
+        if c[0] == "var" and c[1] in BUILTIN_NAMES:
+            return "call:" + c[1]
+        if c[0] == "attr":
+            return "call:method"
+        return "call"
+    if o == "sub":
+        return "sub:slice" if n[2][0] == "slice" else "sub:index"
+    if o in ("tuple", "list"):
+        return o + ("*" if any(i[0] == "star" for i in n[1]) else "")
+    if o == "dict":
+        return o + ("**" if any(i[0] == "dstar" for i in n[1]) else "")
+    if o == "lit":
+        return "lit:" + type(n[1]).__name__
+    return o
+
+
+def _children(n):
+    o = n[0]
+    if o == "bin":
+        return [n[2], n[3]]
+    if o == "un":
+        return [n[2]]
+    if o == "cmp":
+        return list(n[1])
+    if o == "boolop":
+        return list(n[2])
+    if o == "ife":
+        return [n[1], n[2], n[3]]
+    if o == "attr":
+        return [n[1]]
+    if o == "call":
+        return [n[1]] + [a[-1] for a in n[2]]
+    if o in ("tuple", "list"):
+        return [i[1] if i[0] == "star" else i for i in n[1]]
+    if o == "sub":
+        return [n[1]] + ([] if n[2][0] == "slice" else [n[2]])
+    if o in ("lcomp",):
+        return [n[3]]
+    if o == "dcomp":
+        return [n[4]]
+    return []
+
+
+def _callee_kind(case, stmts, node):
+    c = node[1]
+    if c[0] == "attr":
+        if c[1][0] == "call" and c[1][1] == ["var", "super"]:
+            return "super_method"
+        return "method"
+    if c[0] != "var":
+        return "expr"
+    name = c[1]
+    if name in BUILTIN_NAMES:
+        return "builtin"
+    for d in case["defs"]:
+        if d[1] == name:
+            return {"func": "modfunc", "class": "ctor", "const": "const"}[d[0]]
+    for s in stmts:
+        st_ = s["s"]
+        if st_[0] == "def" and st_[1] == name:
+            return "localdef"
+        if st_[0] == "assign" and st_[1] == name:
+            e = st_[2]
+            if e[0] == "lambda":
+                return "locallambda"
+            if e[0] == "attr":
+                return "boundmethod"
+            if e[0] == "call":
+                return "returned_closure"
+            return "value"
+    return "callable_object"
+
+
+def _classify(case, stmts, i, diff, H):
+    """Root-cause signature of a differing statement: localise the innermost closed sub-expression whose value
+    already differs (all sub-expressions are pure), and describe it by node kind and operand types."""
+    s = stmts[i]
+    st_ = s["s"]
+    fam = s["fam"]
+    stmt_tag = fam if (fam.startswith("call:") or fam in ("unpack", "massign", "constif", "for", "ctor")) else "expr"
+    sig = {"gen": "prog", "stmt": stmt_tag, "diff": diff}
+    root_expr = st_[2] if st_[0] in ("assign", "massign", "unpack") else None
+    if root_expr is None:
+        return sig, ""
+    subs = []
+
+    def collect(n, closed):
+        if closed and n[0] != "lit":
+            subs.append(n)
+
+    R.walk_expr(root_expr, collect)
+    # post-order: children before parents == reverse of the pre-order walk is not exact; sort by nesting depth
+    subs = [n for n in reversed(subs)]
+    texts = [R.rx(n) for n in subs]
+    prefix = stmts[:i]
+    lines = ["_r = []"]
+    for t in texts:
+        lines += ["try:", f"    _r.append(('ok', {t}))", "except Exception as _e:", "    _r.append(('exc', type(_e).__name__))"]
+    src = H.module_source(R.rdefs(case["defs"]), R.rstmts([p["s"] for p in prefix]) + lines, "_r")
+    nat, _, m = H.run_cpython(src)
+    H.unload(m)
+    if isinstance(nat, H.Raised):
+        return sig, ""
+    ok_idx = [j for j, r in enumerate(nat) if r[0] == "ok"]
+    obs, _ = H.run_cohdl(build(case, prefix, H, result_expr([texts[j] for j in ok_idx])))
+    got = {}
+    if isinstance(obs, H.Rejected):
+        for j in ok_idx:
+            o1, _ = H.run_cohdl(build(case, prefix, H, texts[j]))
+            if not isinstance(o1, H.Rejected):
+                got[j] = o1
+    else:
+        got = dict(zip(ok_idx, obs))
+    root = None
+    for j in ok_idx:  # innermost first
+        if j in got and _diff(H, nat[j][1], got[j]):
+            root = j
+            break
+    if st_[0] == "unpack":
+        srcv = nat[len(subs) - 1][1] if subs and nat[len(subs) - 1][0] == "ok" and subs[-1] is root_expr else None
+        flat = R.rtarget(st_[1])
+        sig.update({"src": type(srcv).__name__ if srcv is not None else "?", "star": "*" in flat, "nested": "(" in flat})
+    if root is None or (st_[0] == "unpack" and subs[root] is root_expr and not _diff(H, nat[root][1], got[root])):
+        return sig, ""
+    if st_[0] == "unpack" and root == len(subs) - 1 and not _diff(H, nat[root][1], got[root]):
+        return sig, ""
+    node = subs[root]
+    vals = {id(n): nat[j][1] for j, n in enumerate(subs) if nat[j][0] == "ok"}
+
+    def vtype(n):
+        if n[0] == "lit":
+            return type(n[1]).__name__ if n[1] is not None else "none"
+        if id(n) in vals:
+            t = H.canon(vals[id(n)])[0]
+            return t
+        return "?"
+
+    sig["node"] = _node_tag(node)
+    sig["diff"] = _diff(H, nat[root][1], got[root])
+    kids = _children(node)
+    if node[0] in ("bin", "cmp", "un", "sub"):
+        types = [vtype(k) for k in kids]
+        sig["args"] = ",".join(types)
+        if "obj" in types and node[0] in ("bin", "cmp") and len(kids) == 2:
+            a = vals.get(id(kids[0]), kids[0][1] if kids[0][0] == "lit" else None)
+            b = vals.get(id(kids[1]), kids[1][1] if kids[1][0] == "lit" else None)
+            ta, tb = type(a), type(b)
+            rel = "same" if ta is tb else ("rhs_subclass" if issubclass(tb, ta) else ("lhs_subclass" if issubclass(ta, tb) else "unrelated"))
+            sig["rel"] = rel
+            sym = node[1] if node[0] == "bin" else node[2][0]
+            if node[0] == "bin":
+                rname = "__r" + OVL_BIN.get(sym, "x") + "__"
+            else:
+                rname = "__" + {"==": "eq", "!=": "ne", "<": "gt", ">": "lt", "<=": "ge", ">=": "le"}.get(sym, "x") + "__"
+            sig["rhs_overrides_reflected"] = bool(rel == "rhs_subclass" and getattr(tb, rname, None) is not getattr(ta, rname, None))
+        else:
+            sig["op"] = node[1] if node[0] in ("bin", "un") else ",".join(node[2]) if node[0] == "cmp" else "-"
+    elif node[0] == "call":
+        sig["callee"] = _callee_kind(case, stmts, node)
+    elif node[0] == "lcomp":
+        sig["iter"] = _node_tag(node[3])
+        sig["elt"] = node[1][0] if node[1][0] in ("lambda", "call") else "other"
+        sig["cond"] = bool(node[4])
+        if fam == "call:closurelist":
+            sig["closure_captures"] = _closure_capture(stmts, node)
+    elif node[0] == "dcomp":
+        sig["iter"] = _node_tag(node[4])
+        sig["cond"] = bool(node[5])
+    return sig, f"innermost differing sub-expression: {R.rx(node)}\n  CPython: {nat[root][1]!r}\n  cohdl:   {_show(H, got[root])}\n"
+
+
+def _closure_capture(stmts, node):
+    it = node[3]
+    if it[0] == "var":
+        for s in stmts:
+            if s["s"][0] == "assign" and s["s"][1] == it[1] and s["s"][2][0] == "lcomp" and s["s"][2][1][0] == "lambda":
+                lam = s["s"][2][1]
+                return "default_arg" if any(p[1] is not None for p in lam[1]) else "free_variable"
+    return "?"
